@@ -331,8 +331,8 @@ def runModel (renamer strategy fault tree files gens answers : String) : String 
                  else if strategy = "manual" then Strategy.manual else Strategy.stop
     let gen := fun i => gens.getD i Gen.error
     let faultAt := fault.toNat?
-    if renamer = "dry" then
-      let (r, o) := execute dryRenamer { base := fs } files gen strat answers
+    if renamer = "dry" ∨ renamer = "drypath" then
+      let (r, o) := execute (if renamer = "drypath" then dryPathRenamer else dryRenamer) { base := fs } files gen strat answers
       " ".intercalate [toString o.exitStatus, encOutcome o, encList (r.events.map encEvent), "l",
         encList ((sortEntries r.st.base).map encEntry)]
     else
